@@ -53,13 +53,15 @@ func builtinNumberToFixed(call FunctionCall) Value {
 	if 20 < precision || 0 > precision {
 		panic(call.runtime.panicRangeError("toFixed() precision must be between 0 and 20"))
 	}
-	if call.This.IsNaN() {
+	// The this value is converted once: each conversion of an object runs its valueOf.
+	value := call.This.float64()
+	if math.IsNaN(value) {
 		return stringValue("NaN")
 	}
-	if value := call.This.float64(); math.Abs(value) >= 1e21 {
+	if math.Abs(value) >= 1e21 {
 		return stringValue(floatToString(value, 64))
 	}
-	return stringValue(strconv.FormatFloat(call.This.float64(), 'f', int(precision), 64))
+	return stringValue(strconv.FormatFloat(value, 'f', int(precision), 64))
 }
 
 func builtinNumberToExponential(call FunctionCall) Value {
